@@ -1,6 +1,6 @@
 #!/usr/bin/env python3
 """Regenerate coq/Gen/*.v from /repo's current headers (run on every check).
-Usage: gen.py [enc|float|lock|qsbr|all]...   Exit 0 = all requested files generated.
+Usage: gen.py [enc|float|lock|prefix|mutex|ptr|all]...   Exit 0 = all requested files generated.
 On a translator failure the file is replaced by a stub that does not define
 the functions, so the dependent bridge proofs fail (broken tie), and the
 failure text is written to build/gen_errors.json."""
@@ -87,6 +87,232 @@ def gen_lock():
     return 'optimistic_lock.hpp version_type / atomic_version_type', out
 
 
+KP_SPEC = 'unodb::detail::key_prefix<unodb::detail::basic_art_key<std::uint64_t>, unodb::in_fake_critical_section>'
+TU_PREFIX = '''#include <bit>
+#include "global.hpp"
+#include "art.hpp"
+template union %s;
+static_assert(sizeof(%s) == sizeof(std::uint64_t));
+static_assert(sizeof(unodb::detail::key_prefix_snapshot) == sizeof(std::uint64_t));
+static_assert(std::endian::native == std::endian::little);
+''' % (KP_SPEC, KP_SPEC)
+
+
+def union_word_views(tu, record, word):
+    """Byte views of the members of the 8-byte union [record] through its u64 member [word]
+    (little-endian target, checked by a static_assert in the TU)."""
+    import re
+    members, size = cxx2v.record_layout(tu, record)
+    if size != 8 or members.get((word,), (None,))[0] != 0:
+        raise Unsupported('%s is not an 8-byte union with %s at offset 0' % (record, word))
+    tops = sorted((off, path) for path, (off, ty) in members.items() if len(path) == 2 and path[0] != word)
+    views = {}
+    for i, (off, path) in enumerate(tops):
+        end = tops[i + 1][0] if i + 1 < len(tops) and tops[i + 1][1][0] == path[0] else size
+        ty = members[path][1]
+        m = re.search(r'std::array<.*, (\d+)>$', ty)
+        if m:
+            cnt = int(m.group(1))
+            if (end - off) % cnt:
+                raise Unsupported('array member %s of %s' % (path, record))
+            views[path] = (word, off, (end - off) // cnt, cnt)
+        else:
+            views[path] = (word, off, end - off)
+    return views
+
+
+def gen_prefix():
+    # no -DNDEBUG: the UNODB_DETAIL_ASSERTs become conjuncts of the <fn>_defined conditions
+    u = Unit()
+    u.load(TU_PREFIX, 'key_prefix')
+    views = union_word_views(TU_PREFIX, 'union ' + KP_SPEC, 'u64')
+    sviews = union_word_views(TU_PREFIX, 'union unodb::detail::key_prefix_snapshot', 'u64')
+    ident = ('load', 'operator unsigned long', 'operator unsigned char')
+    out = ''
+
+    def fn(name, coq, sig=None, mode='return', calls=(), parent='key_prefix', rec='specialization', objs=(), drop=(),
+           inputs=(), vw=views):
+        nonlocal out
+        f = Fn(u, u.find(name, sig, parent, rec), coq, mode=mode, this_fields={'u64': 'u64'})
+        f.identity_methods = ident
+        f.union_views = vw
+        f.obj_params = {o: {'u64': o + '_u64'} for o in objs}
+        f.drop_params = tuple(drop)
+        f.input_exprs = tuple(inputs)
+        f.fn_calls = {k: table[k] for k in calls}
+        try:
+            out += f.translate()
+        except Unsupported as e:
+            raise Unsupported('%s (%s::%s): %s' % (coq, parent, name, e))
+
+    # callee name -> (coq name, add callee's side conditions, takes the receiver's u64)
+    table = {'length_to_word': ('kp_length_to_word', True, False), 'shared_len': ('kp_shared_len', True, False),
+             'length': ('kp_length', True, True)}
+    fn('length_to_word', 'kp_length_to_word')
+    fn('shared_len', 'kp_shared_len')
+    fn('length', 'kp_length')
+    table['get_shared_length'] = ('kp_get_shared_length', True, True)
+    fn('get_shared_length', 'kp_get_shared_length', '(std::uint64_t)', calls=('shared_len', 'length'))
+    fn('get_shared_length', 'kp_get_shared_length_key', '(unodb::detail::basic_art_key', calls=('get_shared_length',),
+       drop=('shifted_key',), inputs=('get_u64',))
+    fn('operator[]', 'kp_at', calls=('length',))
+    fn('cut', 'kp_cut', mode='field:u64', calls=('length_to_word', 'length'))
+    fn('prepend', 'kp_prepend', mode='field:u64', calls=('length_to_word', 'length'), objs=('prefix1',))
+    fn('key_prefix', 'kp_init_len_src', '(unsigned int, const', mode='field:u64', calls=('length_to_word',),
+       objs=('source_key_prefix',))
+    fn('make_u64', 'kp_make_u64', calls=('length_to_word', 'shared_len'), drop=('k1', 'shifted_k2', 'depth'),
+       inputs=('get_u64',))
+    # the iterator's snapshot of the same word (plain members, no critical-section wrappers)
+    table = {'shared_len': ('kps_shared_len', True, False), 'length': ('kps_length', True, True)}
+    fn('shared_len', 'kps_shared_len', parent='key_prefix_snapshot', rec='record', vw=sviews)
+    fn('length', 'kps_length', parent='key_prefix_snapshot', rec='record', vw=sviews)
+    fn('get_shared_length', 'kps_get_shared_length', parent='key_prefix_snapshot', rec='record', vw=sviews,
+       calls=('shared_len', 'length'))
+    fn('operator[]', 'kps_at', parent='key_prefix_snapshot', rec='record', vw=sviews, calls=('length',))
+    for cname, coq in (('key_prefix_capacity', 'kp_capacity'), ('key_bytes_mask', 'kp_key_bytes_mask')):
+        vals = set()
+        for vid, v in u.vars.items():
+            if v.get('name') == cname and cxx2v.kids(v):
+                try:
+                    vals.add(Fn(u, None, '').E(cxx2v.kids(v)[-1])[0])
+                except Unsupported:
+                    pass  # the dependent initialiser inside the class template pattern
+        if len(vals) != 1:
+            raise Unsupported('constant %s: %s' % (cname, sorted(vals)))
+        out += 'Definition %s : Z := %s.\n\n' % (coq, vals.pop())
+    return 'art_internal_impl.hpp key_prefix / key_prefix_snapshot', out
+
+
+TU_QSBR = '#include "global.hpp"\n#include "qsbr.hpp"\n'
+
+# qsbr_state static functions, in dependency order: C++ name -> Coq name
+QSBR_STATE_FNS = (
+    ('do_get_epoch', 'qs_do_get_epoch'), ('do_get_thread_count', 'qs_do_get_thread_count'),
+    ('do_get_threads_in_previous_epoch', 'qs_do_get_threads_in_previous_epoch'),
+    ('get_epoch', 'qs_get_epoch'), ('get_thread_count', 'qs_get_thread_count'),
+    ('get_threads_in_previous_epoch', 'qs_get_threads_in_previous_epoch'),
+    ('single_thread_mode', 'qs_single_thread_mode'), ('make_from_epoch', 'qs_make_from_epoch'),
+    ('inc_thread_count', 'qs_inc_thread_count'), ('dec_thread_count', 'qs_dec_thread_count'),
+    ('inc_thread_count_and_threads_in_previous_epoch', 'qs_inc_thread_count_and_threads_in_previous_epoch'),
+    ('dec_thread_count_and_threads_in_previous_epoch', 'qs_dec_thread_count_and_threads_in_previous_epoch'),
+    ('inc_epoch_reset_previous', 'qs_inc_epoch_reset_previous'),
+    ('inc_epoch_dec_thread_count_reset_previous', 'qs_inc_epoch_dec_thread_count_reset_previous'),
+    ('dec_thread_count_threads_in_previous_epoch_maybe_advance', 'qs_dec_thread_count_threads_in_previous_epoch_maybe_advance'),
+)
+# constants of the layout, emitted so that the bridge can pin them
+QSBR_CONSTS = (('qsbr_state', 'thread_count_mask'), ('qsbr_state', 'threads_in_previous_epoch_in_word_mask'),
+               ('qsbr_state', 'thread_count_in_word_offset'), ('qsbr_state', 'thread_count_in_word_mask'),
+               ('qsbr_state', 'epoch_in_word_offset'), ('qsbr_state', 'one_thread_in_count'),
+               ('qsbr_state', 'one_thread_and_one_in_previous'), ('qsbr_epoch', 'max'), ('qsbr_epoch', 'max_count'),
+               (None, 'max_qsbr_threads'))
+
+
+def record_members(u, cls, kind):
+    if cls not in u.records:
+        raise Unsupported('class %s not found' % cls)
+    return [c for c in u.records[cls].get('inner', []) if c.get('kind') == kind]
+
+
+def check_value_wrapper(u, cls, field, ctor_sig):
+    """[cls] is a wrapper of the single integer field [field]: no bases, no other
+    fields, and the constructor [ctor_sig] stores its argument unchanged and has
+    an empty body.  This is what justifies representing a [cls] value by the
+    value of its field (constructor = identity)."""
+    rec = u.records.get(cls)
+    if rec is None:
+        raise Unsupported('class %s not found' % cls)
+    if rec.get('bases'):
+        raise Unsupported('%s has base classes' % cls)
+    fields = [c.get('name') for c in record_members(u, cls, 'FieldDecl')]
+    if fields != [field]:
+        raise Unsupported('%s fields are %s, expected [%s]' % (cls, fields, field))
+    ctors = [c for c in record_members(u, cls, 'CXXConstructorDecl')
+             if ctor_sig in c.get('type', {}).get('qualType', '') and not c.get('isImplicit')]
+    if len(ctors) != 1:
+        raise Unsupported('expected one constructor %s%s, found %d' % (cls, ctor_sig, len(ctors)))
+    c = ctors[0]
+    parms = [k for k in cxx2v.kids(c) if k['kind'] == 'ParmVarDecl']
+    inits = [k for k in cxx2v.kids(c) if k['kind'] == 'CXXCtorInitializer']
+    body = [k for k in cxx2v.kids(c) if k['kind'] == 'CompoundStmt']
+    if len(parms) != 1 or len(inits) != 1 or len(body) != 1:
+        raise Unsupported('%s constructor shape' % cls)
+    if inits[0].get('anyInit', {}).get('name') != field:
+        raise Unsupported('%s constructor does not initialise %s' % (cls, field))
+    if cxx2v.kids(body[0]):
+        raise Unsupported('%s constructor body is not empty' % cls)
+    f = Fn(u, None, '')
+    f.env[parms[0]['id']] = parms[0]['name']
+    e, d = f.E(cxx2v.kids(inits[0])[0])
+    if e != parms[0]['name'] or d is not None:
+        raise Unsupported('%s constructor stores %s, not its argument' % (cls, e))
+
+
+def gen_qsbr():
+    u = Unit()
+    # one dump: declaration ids must agree between qsbr_epoch, max_qsbr_threads and qsbr_state
+    u.load(TU_QSBR, 'qsbr_', ['-DNDEBUG'])
+    out = ''
+    # ---- qsbr_epoch: a value object wrapping epoch_val ----
+    check_value_wrapper(u, 'qsbr_epoch', 'epoch_val', '(unodb::qsbr_epoch::epoch_type)')
+    n = u.find('get_val', None, 'qsbr_epoch')
+    f = Fn(u, n, 'qe_get_val', this_fields={'epoch_val': 'epoch_val'})
+    out += f.translate()
+    if f.params or f.used_fields != ['epoch_val']:
+        raise Unsupported('qsbr_epoch::get_val signature')
+    n = u.find('advance', None, 'qsbr_epoch')
+    f = Fn(u, n, 'qe_advance', this_fields={'epoch_val': 'epoch_val'})
+    out += f.translate()
+    if len(f.params) != 1 or f.used_fields != ['epoch_val']:
+        raise Unsupported('qsbr_epoch::advance signature')
+    parm = [k for k in cxx2v.kids(n) if k['kind'] == 'ParmVarDecl'][0]
+    if not cxx2v.kids(parm):
+        raise Unsupported('qsbr_epoch::advance has no default argument')
+    dflt, dd = Fn(u, None, '').E(cxx2v.kids(parm)[-1])
+    if dd is not None:
+        raise Unsupported('default argument with side conditions')
+    out += 'Definition qe_advance_default_by : Z := %s.\n\n' % dflt
+    # ---- qsbr_state ----
+    if record_members(u, 'qsbr_state', 'FieldDecl') or u.records['qsbr_state'].get('bases'):
+        raise Unsupported('qsbr_state is expected to have static members only')
+    # release build: the assertion statements are ((void)0) and assert_invariants must be empty
+    n = u.find('assert_invariants', None, 'qsbr_state')
+    body = [k for k in cxx2v.kids(n) if k['kind'] == 'CompoundStmt'][0]
+    if cxx2v.kids(body):
+        raise Unsupported('qsbr_state::assert_invariants has a body under NDEBUG')
+    known = {cpp: (coq, 1) for cpp, coq in QSBR_STATE_FNS}
+    known['dec_thread_count_threads_in_previous_epoch_maybe_advance'] = (
+        'qs_dec_thread_count_threads_in_previous_epoch_maybe_advance', 2)
+    done = {}
+    for cpp, coq in QSBR_STATE_FNS:
+        n = u.find(cpp, None, 'qsbr_state')
+        if n.get('storageClass') != 'static':
+            raise Unsupported('qsbr_state::%s is not static' % cpp)
+        f = Fn(u, n, coq)
+        f.known_calls = dict(done)          # only functions already defined above
+        f.known_methods = {'get_val': ('qe_get_val', 0), 'advance': ('qe_advance', 1)}
+        f.identity_methods = ()
+        f.default_args = {('advance', 0): 'qe_advance_default_by'}
+        f.call_defined = True
+        f.skip_calls = ('assert_invariants',)
+        out += f.translate()
+        done[cpp] = known[cpp]
+    consts = {}
+    for vid, v in u.vars.items():
+        consts.setdefault(v.get('name'), []).append(v)
+    for cls, nm in QSBR_CONSTS:
+        if cls is None:
+            vs = [v for v in consts.get(nm, []) if cxx2v.kids(v)]
+        else:
+            vs = [v for v in record_members(u, cls, 'VarDecl') if v.get('name') == nm]
+        if len(vs) != 1:
+            raise Unsupported('constant %s: %d definitions' % (nm, len(vs)))
+        e, d = Fn(u, None, '').E(cxx2v.kids(vs[0])[-1])
+        if d is not None:
+            raise Unsupported('constant %s with side conditions' % nm)
+        out += 'Definition %s_%s : Z := %s.\n\n' % ('qe' if cls == 'qsbr_epoch' else 'qs', nm, e)
+    return 'qsbr.hpp qsbr_epoch / qsbr_state', out
+
+
 def gen_shape(which):
     import shape2v
     origin, body, imp = shape2v.gen_mutex() if which == 'mutex' else shape2v.gen_ptr()
@@ -94,6 +320,8 @@ def gen_shape(which):
 
 
 TARGETS = {'enc': ('GenEncode.v', gen_encode), 'float': ('GenFloat.v', gen_float), 'lock': ('GenLockWord.v', gen_lock),
+           'prefix': ('GenKeyPrefix.v', gen_prefix),
+           'qsbr': ('GenQsbrState.v', gen_qsbr),
            'mutex': ('GenMutexMethods.v', lambda: gen_shape('mutex')), 'ptr': ('GenPtrMethods.v', lambda: gen_shape('ptr'))}
 
 
